@@ -229,6 +229,10 @@ def oracle(case, out):
 
 class C12(diffcheck.DiffProp):
     pid = "C12"
+    manifest = dict(
+        text="Unbounded Coq theorems about an executable model of both compat adapters, by induction over every program of read/fill_buf/consume/write/flush/close calls and wake steps, every inner schedule, payload, base capacity 0.. and limit 0..: SyncStream (two Buffers, eof flag, limits, std::io traits, fill_read_buf/flush_write_buf) and AsyncStream (in-flight read/flush/shutdown futures, three waker slots per half). Theorems: byte-exact FIFO on both sides, flush/close completeness, limits, no stranded waker, bounded iterations, no panic other than caller misuse of consume and the max_buffer_size = 0 spin. The model is tied to the code on every run by an exact differential correspondence plus an independent oracle.",
+        note="Trusted: the Coq kernel; ExtrOcamlBasic extraction and the OCaml driver; the harness's scripted inner stream (hand-written Gate future for Pending, counting wakers, drain phase); std Vec exact with_capacity / try_reserve_exact / shrink_to and amortised growth (modelled); Waker::will_wake true for clones of one Arc waker; 8 loop iterations stand for 'does not return' on both sides (C12_progress shows 2 suffice when max >= 1; the refutation is proved for every budget). Environment assumptions: the inner stream obeys the AsyncRead/AsyncWrite contract and keeps the waker of its latest poll; one inner operation per half is blocked at a time and completes only at a wake step; single thread; no allocation failure. Not covered: split() halves as separate values, the read_buf nightly path, &mut aliasing of extend_lifetime_mut. Known findings: base_capacity 0 false EOF, read-limit overshoot, max_buffer_size 0 spin. No axioms.",
+        technique="Coq proof (induction over adapter programs and inner schedules) + extracted-model differential correspondence")
     prop_file = "prop/C12.v"
     model_name = "c12"
     harness_bin = "c12"
